@@ -10,11 +10,13 @@ KIND = {
     "L": "L\tA\t+\tA\t-\t*", "C": "C\tA\t+\tC\t+\t0\t*", "P": "P\tp\tA+\t*",
     "E": "E\t*\tB+\tB-\t0\t2\t0\t2\t*", "G": "G\t*\tB+\tD-\t1\t*", "F": "F\tB\tx+\t0\t2\t0\t2\t*", "O": "O\to\tB+", "U": "U\tu\tB",
     "K": "# comment",
+    # custom records (GFA2 only): a one-letter type, and types spelled with the letters of GFA1 record types
+    "X": "X\tq\t1", "CP": "CP\tsample1\t42\txx:Z:meta", "LC": "LC\tz",
     # segments whose syntax has to be told from the fields before the tags: tags of every datatype (the syntax is inferred by counting the fields that do not look like tags)
     "S1t": "S\tT\tACGT\tLN:i:4\tab:Z:s\tcd:J:[1]\tef:H:0A\tgh:B:c,1,-2\tij:A:x\tkl:f:0.5", "S2t": "S\tW\t4\tACGT\tab:Z:s\tcd:J:[1]\tef:H:0A\tgh:B:f,1.5\tij:A:x\tkl:f:0.5",
 }
 V1 = {"H1", "S1", "S1b", "S1t", "L", "C", "P"}
-V2 = {"H2", "S2", "S2b", "S2t", "E", "G", "F", "O", "U"}
+V2 = {"H2", "S2", "S2b", "S2t", "E", "G", "F", "O", "U", "X", "CP", "LC"}
 
 
 def oracle(kinds, explicit, dialect=None):
